@@ -20,7 +20,7 @@ def mutate_header(gcda, what):
     return None
 
 
-def gcda_sequences(rng, singles, merged):
+def gcda_sequences(rng, singles, merged, gcno=None):
     """lists of gcda to offer for one gcno, with the law each one exercises"""
     seqs = [("none", [])]
     if not singles:
@@ -40,6 +40,20 @@ def gcda_sequences(rng, singles, merged):
             ds = [d1, d1]
             ds.insert(pos, m)
             seqs.append(("mismatch:" + what, ds))
+    # a function the gcno does not describe: a foreign (function, counters) pair inserted after a known one, and the
+    # identifier word of a record replaced by an absent value: an error, never accepted with counts
+    if gcno is not None:
+        known = G.gcno_idents_scan(gcno)
+        try:
+            ff = G.with_foreign_function(d1, known)
+            ids = G.function_idents(d1)
+        except Exception:
+            ff, ids = None, []
+        if ff is not None:
+            seqs.append(("mismatch:foreign_function", [ff]))
+            seqs.append(("mismatch:foreign_function", [d1, ff] if rng.random() < 0.5 else [ff, d1]))
+        for (wi, _old) in ids[:3]:
+            seqs.append(("mismatch:ident", [G.put_word(d1, wi, G.absent_ident(known))]))
     # the file stamp (checksum word) of the gcda replaced by boundary values, 0 included: rejected unless equal to the gcno's
     stamp = G.words(d1, d1[:4] == b"adcg")[2]
     for v in (0, 1, 2**31, 2**32 - 1):
@@ -87,6 +101,18 @@ def synth_sources(rng, n):
         gcno = G.synth_gcno([f], version=version)
         singles = [G.synth_gcda([f], {f["ident"]: [rng.choice(pool) for _ in range(nreal)]}, version=version) for _ in range(2)]
         out.append({"label": "synth%d" % i, "gcno": gcno, "singles": singles, "merged": None})
+    return out
+
+
+def flow_sources(rng, n):
+    """synthesised CFGs with a real profile whose blocks list their arcs in shuffled / descending destination order (the
+    layout of clang <= 10): the k-th counter of the gcda belongs to the k-th measured arc of the gcno in file order"""
+    out = []
+    for i in range(n):
+        f, counters, exp = G.flow_function(rng, i + 1, tree=(i % 2 == 1), order=rng.choice(["shuffle", "desc"]), walks=rng.randrange(1, 9))
+        version = rng.choice([b"*204", b"*704"])
+        gcno = G.synth_gcno([f], version=version)
+        out.append({"label": "flow%d" % i, "gcno": gcno, "singles": [G.synth_gcda([f], {f["ident"]: counters}, version=version)], "merged": None, "expect": exp})
     return out
 
 
@@ -167,7 +193,9 @@ def laws(chk, src, seqs, results, dist):
             if law.startswith("mismatch"):
                 dist["mismatch"] += 1
                 if "err" not in r:
-                    viol("a gcda whose version or checksums do not match the gcno must make the computation fail", law=law, gcdas=[d.hex() for d in ds], impl=r)
+                    viol("a gcda record for a function the gcno does not describe must make the computation fail (never accepted with its counts)"
+                         if law in ("mismatch:foreign_function", "mismatch:ident") else
+                         "a gcda whose version or checksums do not match the gcno must make the computation fail", law=law, gcdas=[d.hex() for d in ds], impl=r)
                 continue
             if "ok" not in r:
                 if law != "none":
@@ -177,6 +205,17 @@ def laws(chk, src, seqs, results, dist):
             if struct_of(c) != struct_of(b):
                 viol("lines, functions and branch slots are determined by the gcno alone", law=law, gcdas=[d.hex() for d in ds], impl=struct_of(c), expected=struct_of(b))
             dist["structure"] += 1
+    # synthesised profile: counters are attached to the arcs in notes-file order, whatever the destination order
+    if "expect" in src and "one" in by and "ok" in by["one"][0][1]:
+        exp = src["expect"]
+        got = G.canon_impl(by["one"][0][1])
+        gl = {l: x for _n, c in got for l, x in c["lines"]}
+        gb = {l: v for _n, c in got for l, v in c["branches"]}
+        ge = all(f[2] for _n, c in got for f in c["funcs"])
+        if gl != exp["lines"] or ge != exp["executed"] or gb != exp["branches"]:
+            viol("the k-th counter of a gcda belongs to the k-th measured arc of the gcno in file order (per-line counts and branch outcomes of a synthesised profile)",
+                 gcdas=[d.hex() for d in by["one"][0][0]], impl={"lines": gl, "branches": gb, "executed": ge}, expected=exp)
+        dist["arc_order"] = dist.get("arc_order", 0) + 1
     # k copies
     if "one" in by and "ok" in by["one"][0][1]:
         one = G.canon_impl(by["one"][0][1])
@@ -232,13 +271,13 @@ def laws(chk, src, seqs, results, dist):
 def run(chk):
     chk.proofs()
     quick = chk.tier == "quick"
-    sources = fixture_sources() + synth_sources(chk.rng, 30 if quick else 400) + clang_sources(chk, 8 if quick else 120)
+    sources = fixture_sources() + synth_sources(chk.rng, 30 if quick else 400) + flow_sources(chk.rng, 12 if quick else 200) + clang_sources(chk, 8 if quick else 120)
     dist = {k: 0 for k in ("no_gcda", "mismatch", "structure", "copies", "copies_overflow", "perm_groups", "merged", "executed_iff", "model_cases", "model_outoffuel")}
     cases, index = [], []
-    derived = [stamp_zero_source(s_) for s_ in sources if not s_["label"].startswith("synth")]
+    derived = [stamp_zero_source(s_) for s_ in sources if not s_["label"].startswith(("synth", "flow"))]
     sources += [d_ for d_ in derived[:len(G.SMALL + G.GCC) + 3 + 4] if d_ is not None]
     for si, src in enumerate(sources):
-        seqs = gcda_sequences(chk.rng, src["singles"], src["merged"]) + src.get("extra_seqs", [])
+        seqs = gcda_sequences(chk.rng, src["singles"], src["merged"], src["gcno"]) + src.get("extra_seqs", [])
         src["seqs"] = seqs
         for qi, (law, ds) in enumerate(seqs):
             cases.append(G.case(src["gcno"], ds, True))
@@ -254,7 +293,16 @@ def run(chk):
     # correspondence with the model on the same bytes (gcno up to 12 kB to keep vm_compute cheap)
     sel = [i for i, (si, qi) in enumerate(index) if len(sources[si]["gcno"]) <= 12000]
     if quick:
-        keep = [i for i in sel if sources[index[i][0]]["seqs"][index[i][1]][0] in ("none", "one", "copies2", "mismatch:checksum", "mismatch:fn_checksum", "merged", "mismatch:stamp=0", "mismatch:gcno_stamp=0")]
+        nfix = len(G.SMALL + G.GCC) + len(G.SMALL)
+        def _keep(i):
+            si, qi = index[i]
+            law = sources[si]["seqs"][qi][0]
+            if law in ("none", "one", "copies2", "merged"):
+                return True
+            # mismatch laws: all of them for the fixtures, every third source otherwise
+            return law in ("mismatch:checksum", "mismatch:fn_checksum", "mismatch:stamp=0", "mismatch:gcno_stamp=0", "mismatch:foreign_function", "mismatch:ident") \
+                and (si < nfix or si % 3 == 0)
+        keep = [i for i in sel if _keep(i)]
         rest = [i for i in sel if i not in set(keep)]
         sel = keep + chk.rng.sample(rest, min(len(rest), 60))
     mcases = [cases[i] for i in sel]
